@@ -128,8 +128,9 @@ impl SampleIndex {
     // Returns `(samples, divisor)` such that `i / divisor` for `i in 0..universe` maps evenly to `0..samples`.
     fn parameters(values: usize, universe: usize) -> (usize, usize) {
         let num_samples = bits::div_round_up(values, Self::RATIO);
-        let divisor = bits::div_round_up(universe, num_samples);
-        let num_samples = bits::div_round_up(universe, divisor);
+        // `bits::div_round_up` may overflow when the universe is close to `usize::MAX`.
+        let divisor = universe / num_samples + ((universe % num_samples != 0) as usize);
+        let num_samples = universe / divisor + ((universe % divisor != 0) as usize);
         (num_samples, divisor)
     }
 }
